@@ -246,13 +246,13 @@ def safe_mid(c):
     return safe_head(c) or c in '0123456789.[]'
 
 
-def _core(s):
-    return len(s) >= 3 and safe_head(s[0]) and all(safe_mid(c) for c in s[1:-1]) and s[-1] != '.'
+def safe_last(c):
+    return safe_head(c) or c in '0123456789]'
 
 
 def as_built(cb):
-    """the grammar the check implements today (Lean: CbGrammar)"""
-    return _core(cb) or (cb.endswith('\n') and _core(cb[:-1]))
+    """the grammar the check implements (Lean: CbGrammar; since fix a7b5ff8 the last character is constrained, no LF)"""
+    return len(cb) >= 3 and safe_head(cb[0]) and all(safe_mid(c) for c in cb[1:-1]) and safe_last(cb[-1])
 
 
 def all_safe(cb):
@@ -549,13 +549,8 @@ def oracle_view(case, imp):
                 accepted = imp.get('err') != 'badRequest'
                 if accepted and not all_safe(cb):
                     # (1) the emitted callback must consist of identifier / member / index characters only
-                    fid = 'F-X03a' if as_built(cb) else None
-                    bad.append(('JSONP accepted callback %r: a character outside [$_A-Za-z0-9.[]] (+ the four case-folding letters) is echoed into the script' % cb, fid))
-                    if fid:
-                        # as built the response is still the documented shape; check it below
-                        pass
-                    else:
-                        return bad
+                    bad.append(('JSONP accepted callback %r: a character outside [$_A-Za-z0-9.[]] (+ the four case-folding letters) is echoed into the script' % cb, None))
+                    return bad
                 if accepted and not as_built(cb):
                     if not bad:
                         bad.append(('JSONP accepted callback %r outside the validated grammar' % cb, None))
@@ -707,8 +702,7 @@ def oracle_cb(case, imp):
         if imp['ct'] != 'application/javascript':
             bad.append(('JSONP content type %r' % imp['ct'], None))
         if not all_safe(cb):
-            bad.append(('JSONP accepted callback %r: a character outside [$_A-Za-z0-9.[]] (+ the four case-folding letters) is echoed into the script' % cb,
-                        'F-X03a' if as_built(cb) else None))
+            bad.append(('JSONP accepted callback %r: a character outside [$_A-Za-z0-9.[]] (+ the four case-folding letters) is echoed into the script' % cb, None))
         elif not as_built(cb):
             bad.append(('JSONP accepted callback %r outside the validated grammar' % cb, None))
     elif as_built(cb):
@@ -763,7 +757,7 @@ KEYS = ['a', 'b', 'k', '', 'é', 'x y', '"q"', '\n', 'callback', '0']
 def gen_cb(rng):
     r = rng.random()
     n = rng.choice([1, 1, 2, 3, 5, 8]) if r < 0.995 else rng.choice([300, 2000])
-    valid = rng.choice(HEADS) + ''.join(rng.choice(MIDS) for _ in range(n)) + rng.choice([c for c in MIDS if c != '.'])
+    valid = rng.choice(HEADS) + ''.join(rng.choice(MIDS) for _ in range(n)) + rng.choice([c for c in MIDS if c not in '.['] if rng.random() < 0.9 else MIDS)
     k = rng.random()
     if k < 0.25:
         return valid
@@ -998,7 +992,7 @@ def run(ctx):
         model = ctx.run_model([to_model(c) for c in cases])
     mism, viol, agree = [], [], 0
     seen, nontriv = set(), set()
-    dist = {'kinds': {}, 'cb': {'accepted': 0, 'refused': 0, 'len': {}, 'odd_last_only': 0, 'non_ascii': 0, 'via_router': 0},
+    dist = {'kinds': {}, 'cb': {'accepted': 0, 'refused': 0, 'len': {}, 'unsafe_last_refused': 0, 'non_ascii': 0, 'via_router': 0},
             'dumps': {'typeError': 0, 'ok': 0, 'with_object': 0},
             'view': {'mode': {}, 'effective_renderer': {}, 'result': {}, 'outcome': {}, 'override': 0, 'setCt': 0, 'ct_kept': 0, 'with_callback': 0}}
     for case, mo in zip(cases, model):
@@ -1020,8 +1014,8 @@ def run(ctx):
             acc = as_built(cb)
             dist['cb']['accepted' if acc else 'refused'] += 1
             vfutil.bump(dist['cb']['len'], min(len(cb), 10))
-            if acc and not all_safe(cb):
-                dist['cb']['odd_last_only'] += 1
+            if len(cb) >= 3 and all_safe(cb[:-1]) and safe_head(cb[0]) and not safe_last(cb[-1]):
+                dist['cb']['unsafe_last_refused'] += 1      # the class F-X03a used to let through
             if any(ord(ch) > 127 for ch in cb):
                 dist['cb']['non_ascii'] += 1
             if case.get('via') == 'router':
